@@ -8,11 +8,11 @@ package frame
 //@ fun be16(hi uint8, lo uint8) int = int(uint16(lo) | uint16(hi)<<8)
 
 // Layout of a live frame (data != nil): see the frame format comment in frame_v1.go.
-//@ pred layout(data []byte, mi int, ai int, xi int) = len(data) >= 68 && mi == 49 + int(data[48]) && ai == mi + 2 + be16(data[mi], data[mi+1]) && xi == ai + authLen(data[4]) && xi <= len(data) && len(data) >= mi + 19
+//@ pred layout(data []byte, mi int, ai int, xi int) = len(data) >= 67 && mi == 49 + int(data[48]) && ai == mi + 2 + be16(data[mi], data[mi+1]) && xi == ai + authLen(data[4]) && xi <= len(data)
 
 //@ type FrameV1
 //@   invariant layout [C02,C13,C17]: self.data != nil ==> layout(self.data, self.messageIndex, self.authIndex, self.appendixIndex)
-//@   invariant pooled [C17]: self.data != nil && self.pooledSlice != nil ==> base(self.data) == base(self.pooledSlice) && self.psDataOffset >= 0 && off(self.data) == off(self.pooledSlice) + self.psDataOffset && self.psDataOffset + cap(self.data) <= cap(self.pooledSlice) && self.psDataOffset + len(self.data) <= len(self.pooledSlice)
+//@   invariant pooled [C17]: self.data != nil && self.pooledSlice != nil ==> base(self.data) == base(self.pooledSlice) && self.psDataOffset >= 0 && off(self.data) == off(self.pooledSlice) + self.psDataOffset && len(self.pooledSlice) == cap(self.pooledSlice) && self.psDataOffset + cap(self.data) <= len(self.pooledSlice)
 
 //@ pool Builder.frameV1Pool
 //@   yields *FrameV1
@@ -21,7 +21,7 @@ package frame
 
 //@ func Builder.ParseFrameV1
 //@   requires b != nil
-//@   requires pooledSlice != nil ==> base(data) == base(pooledSlice) && dataOffset >= 0 && off(data) == off(pooledSlice) + dataOffset && dataOffset + cap(data) <= cap(pooledSlice) && dataOffset + len(data) <= len(pooledSlice)
+//@   requires pooledSlice != nil ==> base(data) == base(pooledSlice) && dataOffset >= 0 && off(data) == off(pooledSlice) + dataOffset && len(pooledSlice) == cap(pooledSlice) && dataOffset + cap(data) <= len(pooledSlice)
 //@   ensures wf [C02,C13]: result1 == nil ==> result0 != nil && result0.data != nil && len(result0.data) == len(data) && base(result0.data) == base(data) && off(result0.data) == off(data)
 //@   ensures err-nil-frame: result1 != nil ==> result0 == nil
 //@   ensures fresh-fields [C17]: result1 == nil ==> result0.recvLink == nil && !result0.src.IsValid() && !result0.dst.IsValid() && result0.builder == b
@@ -74,3 +74,121 @@ package frame
 //@   ensures isolated [C17]: base(result.data) != base(f.data) && fresh(base(result.data)) && base(result.pooledSlice) == base(result.data)
 //@   ensures room [C17]: len(result.pooledSlice) >= len(f.pooledSlice) && cap(result.data) >= len(f.pooledSlice) - f.psDataOffset
 //@   ensures original-untouched [C17]: len(f.data) == old(len(f.data)) && (forall i int :: 0 <= i && i < len(f.data) ==> f.data[i] == old(f.data[i]))
+
+// ---- building frames -------------------------------------------------------------------------
+
+//@ func Builder.FrameMargins
+//@   requires b != nil
+//@   modifies nothing
+//@   ensures values: offset == int(b.offset.v) && overhead == int(b.overhead.v)
+
+//@ type Builder
+//@   invariant margins: 0 <= self.offset.v && self.offset.v <= 100 && 0 <= self.overhead.v && self.overhead.v <= 100
+
+//@ func Builder.SetFrameMargins
+//@   modifies b.offset.v, b.overhead.v
+
+// initHeader and setData work on a frame whose layout is being established (no type invariant yet).
+//@ func FrameV1.initHeader
+//@   option noinv
+//@   requires len(f.data) >= 48
+//@   modifies f.data[0:48], f.src, f.dst
+//@   ensures header [C02,C17]: result == nil ==> f.data[0] == 1 && f.data[1] == 32 && f.data[2] == 0 && f.data[3] == 0 && f.data[4] == uint8(msgType) && f.src == src && f.dst == dst
+//@   ensures seq-cleared [C17]: result == nil ==> (forall i int :: 8 <= i && i < 16 ==> f.data[i] == 0)
+//@   ensures same-slice: len(f.data) == old(len(f.data)) && cap(f.data) == old(cap(f.data)) && base(f.data) == old(base(f.data)) && off(f.data) == old(off(f.data))
+
+//@ func FrameV1.setData
+//@   option noinv
+//@   requires cap(f.data) >= 49 + len(switchBlock) + 2 + len(message) + authLen(f.data[4]) + len(appendix) && len(f.data) >= 5
+//@   requires base(switchBlock) != base(f.data) && base(message) != base(f.data) && base(appendix) != base(f.data)
+//@   ensures indices [C02,C17]: result == nil ==> f.messageIndex == 49 + len(switchBlock) && f.authIndex == f.messageIndex + 2 + len(message) && len(f.data) == f.appendixIndex + len(appendix) && len(f.data) <= cap(f.data)
+//@   ensures auth-size [C02,C17]: result == nil ==> f.appendixIndex == f.authIndex + authLen(f.data[4]) && f.data[4] == old(f.data[4])
+//@   ensures switch-len-byte [C02,C17]: result == nil ==> int(f.data[48]) == len(switchBlock)
+//@   ensures message-len-bytes [C02,C17]: result == nil ==> be16(f.data[f.messageIndex], f.data[f.messageIndex+1]) == len(message)
+//@   ensures content-message [C02,C17]: result == nil ==> (forall i int :: 0 <= i && i < len(message) ==> f.data[f.messageIndex+2+i] == message[i])
+//@   ensures auth-zero [C02,C17]: result == nil ==> (forall i int :: f.authIndex <= i && i < f.appendixIndex ==> f.data[i] == 0)
+//@   ensures header-kept [C02,C17]: result == nil ==> (forall i int :: 0 <= i && i < 48 ==> f.data[i] == old(f.data[i]))
+//@   ensures same-base: base(f.data) == old(base(f.data)) && off(f.data) == old(off(f.data)) && cap(f.data) == old(cap(f.data))
+//@   ensures limits: result == nil ==> len(switchBlock) <= 255 && len(message) >= 1 && len(message) <= 10000 && len(appendix) <= 10000
+
+//@ func FrameV1.initFrame
+//@   option noinv
+//@   requires f.builder != nil
+//@   requires f.builder != nil ==> (0 <= f.builder.offset.v && f.builder.offset.v <= 100 && 0 <= f.builder.overhead.v && f.builder.overhead.v <= 100)
+//@   requires f.pooledSlice != nil ==> cap(f.pooledSlice) == len(f.pooledSlice) && off(f.pooledSlice) == 0
+//@   requires len(switchLabels) <= 65536 && len(data) <= 65536 && len(appendixData) <= 65536
+//@   requires f.pooledSlice != nil ==> base(switchLabels) != base(f.pooledSlice) && base(data) != base(f.pooledSlice) && base(appendixData) != base(f.pooledSlice)
+//@   ensures live [C17]: result == nil ==> f.data != nil && layout(f.data, f.messageIndex, f.authIndex, f.appendixIndex)
+//@   ensures buffer [C17]: result == nil ==> f.pooledSlice != nil && base(f.data) == base(f.pooledSlice) && (base(f.pooledSlice) == old(base(f.pooledSlice)) || fresh(base(f.pooledSlice)))
+//@   ensures link-reset [C17]: result == nil ==> f.recvLink == nil
+//@   ensures addresses [C02,C17]: result == nil ==> f.src == src && f.dst == dst && f.data[4] == uint8(msgType) && f.data[1] == 32 && f.data[2] == 0
+//@   ensures payload [C02,C17]: result == nil ==> f.messageIndex == 49 + len(switchLabels) && f.authIndex == f.messageIndex + 2 + len(data) && (forall i int :: 0 <= i && i < len(data) ==> f.data[f.messageIndex+2+i] == data[i])
+
+//@ func Builder.NewFrameV1
+//@   requires b != nil && 0 <= b.offset.v && b.offset.v <= 100 && 0 <= b.overhead.v && b.overhead.v <= 100
+//@   requires len(switchLabels) <= 65536 && len(data) <= 65536 && len(appendixData) <= 65536
+//@   ensures live [C17]: result1 == nil ==> live(result0) && result0.builder == b && result0.dblReturnCheck == 0
+//@   ensures fresh [C17]: result1 == nil ==> fresh(result0) && result0.recvLink == nil
+//@   ensures content [C02,C17]: result1 == nil ==> result0.src == src && result0.dst == dst && result0.data[4] == uint8(msgType) && result0.messageIndex == 49 + len(switchLabels) && result0.authIndex == result0.messageIndex + 2 + len(data) && (forall i int :: 0 <= i && i < len(data) ==> result0.data[result0.messageIndex+2+i] == data[i])
+//@   ensures err-nil-frame: result1 != nil ==> result0 == nil
+
+//@ func FrameV1.Reply
+//@   option noinv
+//@   requires live(f) && layout(f.data, f.messageIndex, f.authIndex, f.appendixIndex) && f.builder != nil && 0 <= f.builder.offset.v && f.builder.offset.v <= 100 && 0 <= f.builder.overhead.v && f.builder.overhead.v <= 100
+//@   requires f.pooledSlice != nil ==> cap(f.pooledSlice) == len(f.pooledSlice) && off(f.pooledSlice) == 0
+//@   requires len(switchLabels) <= 65536 && len(data) <= 65536 && len(appendixData) <= 65536
+//@   requires f.pooledSlice != nil ==> base(switchLabels) != base(f.pooledSlice) && base(data) != base(f.pooledSlice) && base(appendixData) != base(f.pooledSlice)
+//@   ensures swapped [C17]: result == nil ==> f.src == old(f.dst) && f.dst == old(f.src) && f.data[4] == old(f.data[4]) && f.recvLink == nil
+//@   ensures relaid [C17]: result == nil ==> live(f) && layout(f.data, f.messageIndex, f.authIndex, f.appendixIndex) && f.messageIndex == 49 + len(switchLabels) && (forall i int :: 0 <= i && i < len(data) ==> f.data[f.messageIndex+2+i] == data[i])
+
+//@ func FrameV1.SetAppendixData
+//@   requires live(f)
+//@   modifies f.data, f.data[f.appendixIndex:cap(f.data)]
+//@   ensures fits [C09,C17]: (len(appendix) <= 10000 && len(appendix) <= cap(f.data) - f.appendixIndex) ==> result == nil
+//@   ensures set [C17]: result == nil ==> len(f.data) == f.appendixIndex + len(appendix) && (base(appendix) != base(f.data) ==> (forall i int :: 0 <= i && i < len(appendix) ==> f.data[f.appendixIndex+i] == appendix[i]))
+//@   ensures error-keeps [C17]: result != nil ==> len(f.data) == old(len(f.data))
+//@   ensures same-buffer: base(f.data) == old(base(f.data)) && off(f.data) == old(off(f.data)) && cap(f.data) == old(cap(f.data))
+
+// ---- sealing -----------------------------------------------------------------------------------
+// The small helpers are inlined so that the exact byte ranges handed to the primitives are checked in
+// the context of Seal/Unseal (where TTL and flow flags must be zero).
+//@ func FrameV1.SignRaw
+//@   option inline
+//@ func FrameV1.VerifyRaw
+//@   option inline
+//@ func FrameV1.encryptFrame
+//@   option inline
+//@ func FrameV1.decryptFrame
+//@   option inline
+//@ func FrameV1.putFieldsIntoCryptoState
+//@   option inline
+
+//@ func FrameV1.Seal
+//@   requires live(f) && s != nil
+//@   callsite ed25519.Sign signed-range [C02]: base(arg1) == base(f.data) && off(arg1) == off(f.data) && len(arg1) == f.authIndex
+//@   callsite ed25519.Sign ttl-flags-zeroed [C02]: f.data[1] == 0 && f.data[2] == 0
+//@   callsite AEAD.Seal nonce [C02]: base(arg1) == base(f.data) && off(arg1) == off(f.data) + 4 && len(arg1) == 12
+//@   callsite AEAD.Seal plaintext [C02]: base(arg2) == base(f.data) && off(arg2) == off(f.data) + f.messageIndex + 2 && len(arg2) == f.authIndex - f.messageIndex - 2
+//@   callsite AEAD.Seal in-place [C02]: base(arg0) == base(arg2) && off(arg0) == off(arg2) && len(arg0) == 0 && cap(arg0) >= len(arg2) + 16 && f.appendixIndex == f.authIndex + 16
+//@   callsite AEAD.Seal associated-data [C02]: base(arg3) == base(f.data) && off(arg3) == off(f.data) && len(arg3) == f.messageIndex + 2
+//@   callsite AEAD.Seal ttl-flags-zeroed [C02]: f.data[1] == 0 && f.data[2] == 0
+//@   ensures ttl-flags-restored [C02]: len(f.data) == old(len(f.data)) && f.data[1] == old(f.data[1]) && f.data[2] == old(f.data[2])
+
+//@ func FrameV1.Unseal
+//@   requires live(f) && s != nil
+//@   callsite ed25519.Verify signed-range [C02]: base(arg1) == base(f.data) && off(arg1) == off(f.data) && len(arg1) == f.authIndex
+//@   callsite ed25519.Verify signature-slot [C02]: base(arg2) == base(f.data) && off(arg2) == off(f.data) + f.authIndex && len(arg2) == f.appendixIndex - f.authIndex
+//@   callsite ed25519.Verify ttl-flags-zeroed [C02]: f.data[1] == 0 && f.data[2] == 0
+//@   callsite AEAD.Open nonce [C02]: base(arg1) == base(f.data) && off(arg1) == off(f.data) + 4 && len(arg1) == 12
+//@   callsite AEAD.Open ciphertext-and-mac [C02]: base(arg2) == base(f.data) && off(arg2) == off(f.data) + f.messageIndex + 2 && len(arg2) == f.appendixIndex - f.messageIndex - 2 && f.appendixIndex == f.authIndex + 16
+//@   callsite AEAD.Open in-place [C02]: base(arg0) == base(arg2) && off(arg0) == off(arg2) && len(arg0) == 0
+//@   callsite AEAD.Open associated-data [C02]: base(arg3) == base(f.data) && off(arg3) == off(f.data) && len(arg3) == f.messageIndex + 2
+//@   callsite AEAD.Open ttl-flags-zeroed [C02]: f.data[1] == 0 && f.data[2] == 0
+//@   callsite state.EncryptionSession.Check sequence-checked-after-authentication [C03]: aead_ok
+//@   callsite state.TimeSequenceHandler.Check sequence-checked-after-authentication [C03]: sig_ok
+//@   ensures ttl-flags-restored [C02]: len(f.data) == old(len(f.data)) && f.data[1] == old(f.data[1]) && f.data[2] == old(f.data[2])
+
+// Every byte of the sealed part (below the appendix) other than TTL and flow flags is input to the primitive:
+// signed frames: [0,authIndex) is the signed message and [authIndex,appendixIndex) the signature;
+// encrypted frames: [0,messageIndex+2) is associated data, [messageIndex+2,authIndex) ciphertext, [authIndex,appendixIndex) the MAC.
+//@ lemma sealed-bytes-covered: forall mi int, ai int, xi int, i int :: (49 <= mi && mi + 2 <= ai && ai <= xi && 0 <= i && i < xi) ==> ((0 <= i && i < ai) || (ai <= i && i < xi)) && ((0 <= i && i < mi + 2) || (mi + 2 <= i && i < ai) || (ai <= i && i < xi))
